@@ -10,7 +10,7 @@ from util import call, quiet
 from props.C06 import describe, rules
 
 REQUIRED_THEOREMS = ['Usid.C02.reject_atomic', 'Usid.C02.accept_valid', 'Usid.C02.accept_faithful']
-RULE = ('[optional dtype= and compression= keyword arguments included; every eleventh case lazy data with an explicit element type] random calls of write_main_dataset: data as numpy / dask / empty shape + dtype, dimension lists whose product '
+RULE = ('[also: refusals by HDF5 itself after the validation passed - an unknown compression filter, chunks larger than the dataset] [optional dtype= and compression= keyword arguments included; every eleventh case lazy data with an explicit element type] random calls of write_main_dataset: data as numpy / dask / empty shape + dtype, dimension lists whose product '
         'equals or differs from the data shape, slow_to_fast in {F,T}, custom prefixes (with "-"), reuse of ancillaries '
         'from the same or another file, wrong argument types, and prior group contents with clashing names of every '
         'kind (Position_*, Spectroscopic_*, the main name); after a rejection the corrected call is retried in the '
@@ -18,7 +18,9 @@ RULE = ('[optional dtype= and compression= keyword arguments included; every ele
 PRIOR = ['Position_Indices', 'Position_Values', 'Spectroscopic_Indices', 'Spectroscopic_Values', 'MAIN', 'unrelated',
          'Spec_Y_Indices', 'Spec_Y_Values', 'My_Pos_Values', 'My_Pos_Indices', 'PosX_Indices', 'Same_Values', 'MA_IN']
 ERRORS = ['none', 'none', 'none', 'none', 'pos_size', 'spec_size', 'pos_type', 'spec_type', 'quantity_type', 'data_rank',
-          'empty_no_dtype', 'data_type']
+          'empty_no_dtype', 'data_type',
+          # refusals that can only come from HDF5 itself, i.e. after the arguments passed the library's own validation
+          'bad_compression', 'bad_chunks']
 
 
 def _dims(rng, side, prefix):
@@ -80,7 +82,7 @@ def _args(inp, err):
     a = {'shape': [n, m], 'pos': _declared(ds['pos'], inp['s2f']), 'spec': _declared(ds['spec'], inp['s2f']),
          'pos_bad_type': err == 'pos_type', 'spec_bad_type': err == 'spec_type', 'quantity_ok': err != 'quantity_type',
          'data': inp['data'], 'data_rank_bad': err == 'data_rank', 'empty_no_dtype': err == 'empty_no_dtype',
-         'data_bad_type': err == 'data_type'}
+         'data_bad_type': err == 'data_type', 'bad_compression': err == 'bad_compression', 'bad_chunks': err == 'bad_chunks'}
     if err == 'pos_size':
         a['pos'] = copy.deepcopy(a['pos'])
         a['pos'][0]['values'] = a['pos'][0]['values'] + [99]
@@ -125,6 +127,10 @@ def _call(inp, grp, other, a, data_arr):
             kw['dtype'] = {'f4': np.float32, 'f8': np.float64}[inp['kw_dtype']]
     if inp.get('kw_compression'):
         kw['compression'] = inp['kw_compression']
+    if a.get('bad_compression'):
+        kw['compression'] = 'bogus'
+    if a.get('bad_chunks'):
+        kw['chunks'] = (a['shape'][0] + 1, a['shape'][1])
     if a['empty_no_dtype'] and a['data'] != 'empty':
         data = tuple(a['shape'])
     quantity = 'Current' if a['quantity_ok'] else 5
@@ -323,7 +329,7 @@ def _model_req(inp, err, members):
             'name': inp['name'].strip().replace('-', '_'), 'n': a['shape'][0], 'm': a['shape'][1], 'data': data,
             'pos': side('pos', a['pos'], a['pos_bad_type']), 'spec': side('spec', a['spec'], a['spec_bad_type']),
             'pos_prefix': _norm_prefix(inp['pos_prefix']), 'spec_prefix': _norm_prefix(inp['spec_prefix']),
-            'members': members}
+            'members': members, 'storage_ok': not (a.get('bad_compression') or a.get('bad_chunks'))}
 
 
 def model_requests_obs(inp, obs):
